@@ -992,6 +992,12 @@ func main() {
 	w("def actorSetAdapter : List String := %s", leanList(stmtSrcs(findFunc(parseFile(filepath.Join(repo, "actor", "actor.go")), "actor", "SetAdapter"))))
 	w("/-- playerRunner.Fold: the player's own fold brings him back (Resume) whether or not the table accepts it -/")
 	w("def playerFold : List String := %s", leanList(stmtSrcs(findFunc(playerR, "playerRunner", "Fold"))))
+	w("/-- playerRunner.Idle / Suspend / Resume: the runner's status machine (an idle report on a suspended player makes him idle again) -/")
+	w("def playerIdle : List String := %s", leanList(stmtSrcs(findFunc(playerR, "playerRunner", "Idle"))))
+	w("def playerSuspend : List String := %s", leanList(stmtSrcs(findFunc(playerR, "playerRunner", "Suspend"))))
+	w("def playerResume : List String := %s", leanList(stmtSrcs(findFunc(playerR, "playerRunner", "Resume"))))
+	w("/-- botRunner.requestMove, statement by statement (a humanised bot parks the move on its time bank and decides on the state it was asked on) -/")
+	w("def botRequestMove : List String := %s", leanList(stmtSrcs(findFunc(botR, "botRunner", "requestMove"))))
 	w("")
 	w("/-- actor.UpdateTableState, statement by statement (deliveries to one actor are queued behind its mutex, none is dropped) -/")
 	w("def actorUpdate : List String := %s", leanList(stmtSrcs(findFunc(parseFile(filepath.Join(repo, "actor", "actor.go")), "actor", "UpdateTableState"))))
